@@ -145,7 +145,13 @@ func (h *TwoPartyHandler) advance() {
 			return
 		}
 		out := make(chan *round.Message, 1)
-		newRound, err := h.round.Finalize(out)
+		// in a two party protocol Finalize consumes the peer's message (e.g. the OT steps),
+		// so it must not be able to take down the process either
+		var newRound round.Session
+		err := safely(func() (err error) {
+			newRound, err = h.round.Finalize(out)
+			return err
+		})
 		if err != nil || newRound == nil {
 			h.abort(err)
 			return
